@@ -311,6 +311,16 @@ def _expr_equal(a: Any, b: Any) -> Optional[bool]:
         x, y = sp.sympify(a), sp.sympify(b)
     except Exception:
         return None
+    syms = sorted((x.free_symbols | y.free_symbols), key=lambda s: s.name)
+    if syms and all(s_ in FINITE_DOMAINS for s_ in syms):
+        # every symbol ranges over a declared finite domain: compare exactly on that domain (sampling
+        # outside it is meaningless and, with towers of powers, can take for ever)
+        try:
+            if x == y:
+                return True
+            return finite_equal(x, y)
+        except Exception:
+            return None
     try:
         d = sp.simplify(x - y)
         if d == 0:
@@ -322,14 +332,16 @@ def _expr_equal(a: Any, b: Any) -> Optional[bool]:
     except Exception:
         d = x - y
     # numeric refutation at distinct primes (exact evaluation of the extracted form)
-    syms = sorted((x.free_symbols | y.free_symbols), key=lambda s: s.name)
     agree = 0
     tried = 0
     for shift in range(8):
         m = {}
         for i, s in enumerate(syms):
             p = PRIMES[(i + 3 * shift) % len(PRIMES)]
-            if s.is_integer:
+            if s in FINITE_DOMAINS:
+                dom = list(FINITE_DOMAINS[s])
+                m[s] = sp.Integer(dom[(i + 3 * shift) % len(dom)])
+            elif s.is_integer:
                 m[s] = p
             else:
                 q = PRIMES[(i + shift + 5) % len(PRIMES)]
@@ -366,7 +378,7 @@ def guard_substitution(guard: Tuple[Tuple[Any, bool], ...]) -> Dict[Any, Any]:
     """Equalities sym == const asserted by a guard, as a substitution."""
     m: Dict[Any, Any] = {}
     for c, pol in guard:
-        if pol and isinstance(c, sp.Equality):
+        if (pol and isinstance(c, sp.Equality)) or (not pol and isinstance(c, sp.Unequality)):
             l, r = c.lhs, c.rhs
             if l.is_Symbol and not r.free_symbols:
                 m[l] = r
